@@ -63,6 +63,13 @@ var c19Texts = []string{"ababa abab", "acca bccb", "aaba ab", "ab12 aab123 b7", 
 	// long enough for loops to pass 64, 128 and 256 iterations in one attempt
 	strings.Repeat("a", 70) + "b12 " + strings.Repeat("a", 130) + "bb7", "(" + strings.Repeat("ab", 36) + ") x" + strings.Repeat("1", 260) + " x12", strings.Repeat("ab", 20) + "xa" + strings.Repeat("b", 70) + "ya" + strings.Repeat("ab", 34)}
 
+// c19LongText: beyond the reader's 4096-byte window three times over, with a match now and then (for calls that search
+// a FILE holding it; only the linear programs below are run on it)
+var c19LongText = strings.Repeat("lorem ipsum 77 dolor x12 sit amet, consectetur x9 adipiscing\n", 220)
+
+// programs of the pool that are linear in the input: index into c19Pool
+var c19LinearProgs = []int{13, 10}
+
 var raceHead = regexp.MustCompile(`^\s+(\S+)\(.*\)$`)
 
 // parseRaceLogs returns the number of reports and a de-duplicated list keyed by the pair of
@@ -143,7 +150,7 @@ func C19(r *drv.Run) {
 	if !quick(r) {
 		rounds = 3000
 	}
-	r.Rule = "rounds of 8..32 goroutines issuing Compile (sources with and without regex groups, with loops, with relocated global patterns, sources that fail in the lexer / parser / regex sub-parser / generator / type checker, sources of about a kilobyte), Compile+Run, Run on shared pre-compiled programs and Run followed by Json()/FormattedJson() of the result list, on short texts and on texts long enough for loops to pass 64, 128 and 256 iterations in one attempt, all released from one barrier, in a -race build of the worker; yield hooks (H2 every lexer read, H3 parser/generator sites, H1 every VM step) armed in half of the rounds. Plus compile storms: 16 goroutines each compiling a few tiny sources two hundred times over without yields (9 600 compilations per storm), every repetition compared. One round in ten runs next to one more compilation that waits for its source on a named pipe; the source is delivered when every other call has returned - a call that alone returns at once must not wait for it (the writer gives up after 20 s, which is the violation). Oracle 1: the Go race detector (GORACE halt_on_error=0, log files parsed, reports de-duplicated by the pair of outermost repository frames): any report is a violation. Oracle 2: every concurrent call's result digest (canonical bytecode with loop ids normalised; all match fields; the rendered JSON texts) equals the digest of the same call executed alone in a fresh sequential worker. Oracle 3: canonical bytecode of the shared programs unchanged by the round. Non-trivial = a call whose [call,return] interval overlapped another call's on the shared monotonic clock; distinct by (round, call index)."
+	r.Rule = "rounds of 8..32 goroutines issuing Compile (sources with and without regex groups, with loops, with relocated global patterns, sources that fail in the lexer / parser / regex sub-parser / generator / type checker, sources of about a kilobyte), Compile+Run, Run on shared pre-compiled programs and Run followed by Json()/FormattedJson() of the result list, on short texts and on texts long enough for loops to pass 64, 128 and 256 iterations in one attempt, all released from one barrier, in a -race build of the worker; yield hooks (H2 every lexer read, H3 parser/generator sites, H1 every VM step) armed in half of the rounds. Plus compile storms: 16 goroutines each compiling a few tiny sources two hundred times over without yields (9 600 compilations per storm), every repetition compared. In every third round a third of the calls are RunFiles calls of two linear programs over ONE file of 13 KB (three reader windows) and one small file, so that several goroutines search the same file at the same time. One round in ten runs next to one more compilation that waits for its source on a named pipe; the source is delivered when every other call has returned - a call that alone returns at once must not wait for it (the writer gives up after 20 s, which is the violation). Oracle 1: the Go race detector (GORACE halt_on_error=0, log files parsed, reports de-duplicated by the pair of outermost repository frames): any report is a violation. Oracle 2: every concurrent call's result digest (canonical bytecode with loop ids normalised; all match fields; the rendered JSON texts) equals the digest of the same call executed alone in a fresh sequential worker. Oracle 3: canonical bytecode of the shared programs unchanged by the round. Non-trivial = a call whose [call,return] interval overlapped another call's on the shared monotonic clock; distinct by (round, call index)."
 	r.Assumptions = []string{
 		"the race detector only sees races on schedules that occur; yields and repetition raise the odds, not to certainty",
 		"the harness's own monitor state is atomic in concurrent mode; the step and lexer counters are switched off there",
@@ -156,6 +163,8 @@ func C19(r *drv.Run) {
 	for i, s := range c19Texts {
 		texts[i] = []byte(s)
 	}
+	longIdx := len(texts)
+	texts = append(texts, []byte(c19LongText))
 	type key struct {
 		kind string
 		p, t int
@@ -166,8 +175,14 @@ func C19(r *drv.Run) {
 	for p := range c19Pool {
 		keys = append(keys, key{"compile", p, 0})
 		for t := range texts {
+			if t == longIdx {
+				continue
+			}
 			keys = append(keys, key{"compile+run", p, t}, key{"run", p, t}, key{"run+json", p, t})
 		}
+	}
+	for _, p := range c19LinearProgs {
+		keys = append(keys, key{"runfiles", p, longIdx}, key{"runfiles", p, 3}, key{"run", p, longIdx})
 	}
 	// sequential reference digests, one fresh (non-race) worker process per call
 	r.Exec(len(keys), drv.ExecOpts{Batch: 8}, func(i int) *drv.Item {
@@ -199,9 +214,13 @@ func C19(r *drv.Run) {
 			if rng.Chance(1, 4) {
 				p = rng.Intn(len(c19Pool))
 			}
-			calls[j] = wire.Call{Kind: kinds[rng.Intn(len(kinds))], Prog: p, Text: rng.Intn(len(texts)), G: j % g}
+			calls[j] = wire.Call{Kind: kinds[rng.Intn(len(kinds))], Prog: p, Text: rng.Intn(longIdx), G: j % g}
 			if calls[j].Kind == "compile" {
 				calls[j].Text = 0
+			}
+			if i%3 == 1 && rng.Chance(1, 3) {
+				// several goroutines search the SAME file (three reader windows long) at the same time, next to the rest
+				calls[j] = wire.Call{Kind: "runfiles", Prog: c19LinearProgs[rng.Intn(len(c19LinearProgs))], Text: []int{longIdx, longIdx, 3}[rng.Intn(3)], G: j % g}
 			}
 		}
 		c := wire.Case{Op: "conc", Srcs: srcs, Texts: texts, Calls: calls, Goroutines: g, Yield: i%2 == 0}
@@ -246,8 +265,11 @@ func C19(r *drv.Run) {
 				if !ok {
 					continue
 				}
+				if cl.Kind == "runfiles" {
+					r.Count("concurrent_searches_of_one_file", 1)
+				}
 				if cl.Panic != "" || cl.Digest != want {
-					r.Violate(&drv.Violation{Sig: "concurrent-call-differs-from-sequential:" + cl.Kind, Src: c19Pool[cl.Prog], Text: c19Texts[cl.Text], Case: &c,
+					r.Violate(&drv.Violation{Sig: "concurrent-call-differs-from-sequential:" + cl.Kind, Src: c19Pool[cl.Prog], Text: oneLineN(string(texts[cl.Text]), 80), Case: &c,
 						Detail: map[string]any{"goroutines": g, "yield_hooks": c.Yield, "sequential_digest": want, "concurrent_digest": cl.Digest, "panic": cl.Panic}})
 					continue
 				}
